@@ -375,4 +375,23 @@ def rule_field_order(c, prog, enc, R="C14.spec"):
             c.ok(R, "order:CFrame")
         else:
             c.violation(R, "order|CFrame", f"docs/attributes.md (worked example: a rotation about Y is stored c 0 s 0 1 0 -s 0 c) stores the rotation row by row — R00 R01 R02 R10 …, as the XML form names them; the writer emits {['.'.join(g_) if g_ else 'id' for g_ in got]}: a blob built from the document decodes to the inverse rotation", "rbx_types/src/attributes/writer.rs", instance="order:CFrame")
+        # the field table's own words for the nine floats have to denote the order the example shows.  Roblox's
+        # XVector / YVector / ZVector (RightVector, UpVector, -LookVector; the arguments of CFrame.fromMatrix) are the
+        # COLUMNS of the matrix; "row" wording or the R00 R01 R02 … spelling denote rows.  Other wording: no claim.
+        row = re.search(r"^\|\s*Rotation matrix\s*\|[^|]*\|([^|]*)\|", doc["CFrame"][1], re.M)
+        if row:
+            txt = row.group(1)
+            stated = None
+            if re.search(r"XVector.*YVector.*ZVector", txt):
+                stated = "columns"
+            elif re.search(r"row[- ]major|R00,? R01,? R02|row by row", txt, re.I):
+                stated = "rows"
+            elif re.search(r"column[- ]major|R00,? R10,? R20", txt, re.I):
+                stated = "columns"
+            if stated is not None:
+                n += 1
+                if stated == "rows":
+                    c.ok(R, "order:CFrame:table-vs-example")
+                else:
+                    c.violation(R, "order|CFrame|table-vs-example", "docs/attributes.md, CFrame: the field table says the nine floats are `the XVector, the YVector, and ZVector, in that order` — in Roblox's vocabulary the columns (R00 R10 R20, R01 …) — while the worked example two paragraphs below (and the reader / writer) store the matrix row by row (R00 R01 R02, R10 …): an encoder built from the table produces the inverse rotation", "docs/attributes.md", instance="order:CFrame:table-vs-example")
     c.floor(R, n, 6, "attribute types whose leaf order is compared with the document")
